@@ -58,6 +58,9 @@ def main():
     add('one converted value off by 1e-4', ev, {'Proportional'})
     ev = copy.deepcopy(L); ev[0]['f'][4][4] = bump(ev[0]['f'][4][4])
     add('diagonal factor not 1', ev, {'Reflexive', 'Inverse', 'Transitive', 'Proportional'})
+    kz = [k for k, d in enumerate(L[0]['nums']) if d[0] == 0][0]
+    ev = copy.deepcopy(L); ev[0]['v'][0][1][kz] = ev[0]['f'][0][1]
+    add('num = 0 answered with the bare factor', ev, {'ZeroMapsToZero', 'Proportional'})
     ev = copy.deepcopy(L); ev[0]['ok'][1][5] = False
     add('one same-type conversion refused', ev, {'EveryTypedUnitAccepted'})
     iC, iF = T[0]['units'].index('C'), T[0]['units'].index('F')
